@@ -42,7 +42,8 @@ add("C07", "fault_enumeration",
     "crash-point enumeration: worker killed by SIGKILL at the n-th hit of build-tag hook points between file-system effects, fresh-process reopen (library and client-style), recovery oracle from the reference model; plus tail truncations of the block files",
     "Held on the crash points observed: for several generated workloads (extend with saves in flight / aborted, snapshot-then-reorganisation, heavier branch invalid at connect, data-file roll-over, slow and fast snapshot writer) "
     "the worker is killed at sampled (quick) or all (thorough) hits of ~28 hook points; each directory is reopened by a fresh process in library mode and in client-style mode; the reopened tip must be a block the node had connected before the crash, "
-    "its UTXO dump must equal the reference replay of that block, and after feeding the remaining blocks tip and UTXO must equal the uninterrupted reference run; clean shutdown must restart to exactly the final state.",
+    "its UTXO dump must equal the reference replay of that block, and after feeding the remaining blocks tip and UTXO must equal the uninterrupted reference run; clean shutdown must restart to exactly the final state. "
+    "Every third crash run holds the goroutine at its crash point for 250 ms before the kill so that concurrently running writers get further first; one recovery in three is itself killed at a second point; every recovery is followed by a clean shutdown and a second restart.",
     "Crash = process death with intact page cache. Crash points exist only where vhook.Point calls were placed (between every pair of file-system effects found by reading the code). Client-style reopen re-implements do_the_blocks/LocalAcceptBlock in the harness.",
     "DESIGN.md §3 C07")
 
@@ -57,7 +58,8 @@ add("C11", "exploration",
     "Go race detector (-race build, reports with a gocoin frame) + schedule perturbation (GOMAXPROCS 1/2/4/16, pseudo-random yields at hook points, snapshot-writer speeds) + schedule-independence oracle (reference model) + snapshot observer",
     "Held on the executions observed: histories with 100-400-input blocks (parallel hashing / script verification / UTXO workers all busy), a failing script among hundreds (early return with verifiers in flight), block trees with reorganisations, "
     "background saves that complete, are hurried or are aborted by the next commit/undo, Close racing a save, and 3 reader goroutines using UnspentGet/TxPresent/BlockGet concurrently; after every delivery verdict, tip and full UTXO dump equal the (schedule-free) reference; "
-    "every UTXO.db that became visible under its final name was parsed and equals the reference UTXO set of the block in its header.",
+    "every UTXO.db that became visible under its final name was parsed and equals the reference UTXO set of the block in its header. "
+    "Also: blocks touching > 32 multi-output records (parallel insert/delete workers on partially spent records) and slow-disk histories with a > 100-chunk UTXO set in which aborts reach the snapshot producer while it waits on its full chunk channel.",
     "The race detector sees only executed access pairs. UTXO records are Go-heap allocated in this harness (the mmap allocator has no shadow memory; it is covered by C20).",
     "DESIGN.md §3 C11")
 
@@ -65,7 +67,7 @@ add("C03", "exploration",
     "differential runtime monitor: library ECDSA / BIP340 / tweak predicates and signers vs an independent big.Int secp256k1 reference (refec) on valid triples, exhaustive single-bit mutations, range/encoding edge sets and algebraically crafted inputs",
     "Held on the inputs observed: ~33k judged (key, signature, message) triples per quick run in 14 generator families (valid, every single-bit mutation of some, r/s in {0,1,n-1,n,n+k,p,2^256-1}, 33-byte integers, compressed/uncompressed/hybrid keys, coordinates >= p, x without square root, off-curve points, "
     "forgeries built with the library's own arithmetic, BIP340 edge cases, taproot tweak cases) plus ~2k signer cases (RFC6979 and BIP340 outputs equal the reference, random-nonce signatures verify, low-S, canonical DER, recovery returns the key).",
-    "Oracle = /verif/ref/refec, calibrated on the BIP340 CSV vectors, RFC6979 vectors and known multiples of G at start-up. DER inputs whose integer value is ambiguous are executed but not judged.",
+    "Oracle = /verif/ref/refec, calibrated on the BIP340 CSV vectors, RFC6979 vectors and known multiples of G at start-up. Signature bytes are read with the independent lax DER parser of ref/refscript (the property is about r, s and the equation; encoding strictness is C01's).",
     "DESIGN.md §3 C03")
 add("C08", "exploration",
     "differential runtime monitor: field operation sequences with tracked magnitudes, group operations and scalar multiplications vs big.Int reference, on amd64 (5x52) and GOARCH=386 (10x26); exhaustive check of all precomputed table entries",
@@ -102,7 +104,7 @@ add("C02", "exploration",
 add("C09", "exploration",
     "differential runtime monitor: transaction/block decoders vs an independent Core-exact codec (reftx) on valid encodings, every truncation, single-byte mutations, all CompactSize forms at every position, huge counts, marker/flag grid, trailing bytes; journaling child workers under an address-space limit with allocation and hang watchdogs",
     "Held on the inputs observed: ~270k decodes per quick run (240k distinct): accept/refuse verdicts equal the reference, and on everything both accept, consumed length, re-encoding, txid, wtxid, size, weight, vsize, block weight, Merkle root and mutation flag agree; "
-    "no worker death, no allocation above 64*len+1MiB, no call exceeding the step watchdog.",
+    "no worker death, no allocation above 64*len+1MiB, no call exceeding the step watchdog. Every 4th batch is decoded again by a GOARCH=386 worker (classes @386).",
     "Oracle = /verif/ref/reftx calibrated on tx_valid/tx_invalid.json and the genesis block. Hang = 3 s per-case watchdog reproduced 3/3 with the same outermost frame, otherwise inconclusive. Inputs above 32 MiB (MAX_SIZE) are not generated.",
     "DESIGN.md §3 C09")
 
@@ -123,7 +125,7 @@ add("C16", "exploration",
 add("C01", "exploration",
     "differential runtime monitor: script.VerifyTxScript vs an independent port of Bitcoin Core's interpreter (refscript) on template spends signed by an independent signer, single-rule mutations, stack-aware random opcode programs and flag sets closed under Core's dependencies; journaling child workers; -race replay from 8 goroutines sharing one Tx",
     "Held on the cases observed: ~15k spends / ~63k (spend, flag set) evaluations per quick run (3.1M in thorough): verdicts agree on P2PK/P2PKH/multisig/P2SH/P2WPKH/P2WSH/nested/P2TR key and script path spends and their mutations, on opcode soup at the stack/op/element/script limits, CLTV/CSV grids, OP_SUCCESS, annex, leaf versions, tapscript sigop budget; "
-    "all 54 reference error codes and 175+ opcodes were reached; no crash, no race report.",
+    "all 54 reference error codes and 175+ opcodes were reached; no crash, no race report. Every second case is evaluated again by a GOARCH=386 build of the interpreter (classes @386).",
     "Oracle = /verif/ref/refscript calibrated on script_tests.json (1204 incl. error names), tx_valid/tx_invalid.json and hand-derived taproot cases (no official BIP341 script vectors are available offline). Known deviations are named by re-running the reference with one modelled deviation; that is used for naming only, never for the verdict.",
     "DESIGN.md §3 C01")
 add("C13", "exploration",
@@ -142,7 +144,7 @@ add("C12", "exploration",
 add("C18", "exploration",
     "hostile-input runtime monitor: the real dispatch loop OneConnection.Run() is driven over scripted in-memory connections (framed messages for every command, truncations, count/length disagreements, size limits, random bytes, sequences before/after the handshake) in journaling child workers; panic / recover-banner, lock-leak (TryLock on every node mutex), hang watchdog and library-parser monitors; benign-conversation self-test before every batch",
     "Held on the conversations observed: ~6500 scripted connections / ~19k dispatched messages / 80k library parser calls per quick run over all commands of the property: no handler panicked (caught by Run's recover or not), no mutex was left locked after Run returned, no handler or parser exceeded its step watchdog (3/3 reproducible with the same frame = violation, else inconclusive), no worker died; "
-    "witnesses of the 12 repaired findings are replayed in every run.",
+    "witnesses of the 12 repaired findings are replayed in every run. A GOARCH=386 library-only worker (the client does not compile for 32-bit targets) feeds scripts / transactions / keys / addresses with lengths around 2^31 and 2^32 to the same parsers (classes @386).",
     "The harness initialises what client/main.go initialises before accepting connections; NetBlocks elements are dropped (the main loop is not part of this property), NetTxs go through the real HandleNetTx. Time-driven paths (ping interval, header/block timeouts) are not reached.",
     "DESIGN.md §3 C18")
 
